@@ -97,9 +97,12 @@ def r1_factor_form(ctx):
 
 
 class IsTypeHandler(Handler):
-    def __init__(self, eq, neg, rad):
+    def __init__(self, eq, neg, rad, nobase=None, nodim=None, torad=None):
         super().__init__()
         self.eq, self.neg, self.rad = eq, neg, rad
+        self.nobase = rad if nobase is None else nobase       # a bare number has no units at all ...
+        self.nodim = rad if nodim is None else nodim          # ... and therefore no dimensions either; %, ppth, [pi] have units without dimensions
+        self.torad = rad if torad is None else torad
         self.conv, self.ret = None, None
 
     def test(self, node):
@@ -110,9 +113,11 @@ class IsTypeHandler(Handler):
                  "-self.baseunits2.dimensions == self.baseunits1.dimensions"):
             return self.neg
         if s == "self.baseunits1.nobase":
-            return self.rad
+            return self.nobase
+        if s == "self.baseunits1.nodim":
+            return self.nodim
         if s == "self.baseunits2.units == ['rad']":
-            return self.rad
+            return self.torad
         return None
 
     def stmt(self, node):
@@ -140,8 +145,9 @@ def r2_rule_selection(ctx):
              ("negated dimensions", (False, True, False), ("_convert_inversed", "True")),
              ("bare number to rad", (False, False, True), ("_convert_linear", "True")),
              ("different dimensions", (False, False, False), (None, "False"))]
+    cells.append(("dimensionless unit (%, ppth, [pi]) to rad", (False, False, None), (None, "False")))
     for name, (eq, neg, rad), want in cells:
-        h = IsTypeHandler(eq, neg, rad)
+        h = IsTypeHandler(eq, neg, rad) if rad is not None else IsTypeHandler(eq, neg, False, nobase=False, nodim=True, torad=True)
         try:
             run_block(fn.body, h)
         except Unrecognised as e:
